@@ -29,6 +29,8 @@ Decided (DESIGN.md section 5, C15):
      R2-merge-appends-every-element   append32to64: complete range-for over the 32-bit map feeding (item.key, item.value) into the 64-bit
                                       map, before its final sort_unique; flip_copy / flip_in_place visit every pair and exchange key and value
      R3-narrow-store-guarded          RelationsMapStash::add stores into the 32-bit map only when both ids are <= 2^32-1
+     R3-narrow-lookup-guarded         RelationsMapIndex::for_each hands its 64-bit id to the 32-bit map (directly or through a helper) only under
+                                      a dominating test that it is <= 2^32-1   [found F28, fixed by 3df468d]
      R4-index-dispatch                RelationsMapIndex: the constructor taking the 32-bit map sets the small flag, the other clears it;
                                       for_each / empty / size use the 32-bit map exactly under the flag; for_each passes it->value for
                                       every element of the range; add_members records (member, parent)
@@ -42,11 +44,14 @@ Decided (DESIGN.md section 5, C15):
                                       clear resets buffer, index and both counters
      L1-special-members-memberwise    every user-written copy / move / swap of the id set, relations map and item stash classes handles every
                                       data member of its record; a by-value assignment delegates to swap(*this, argument)
+     I5-gc-decision-monotone-in-removed  the function that guards garbage_collect() in add_item (should_gc): the test that immediately selects a
+                                      `return false` is never a lower bound on the removed count, the one selecting `return true` never an upper
+                                      bound (sufficient for: more removed items never turn "collect" into "do not collect"); thresholds not decided
      I4-no-stale-buffer-offset        no local that holds Buffer::committed() / written() of the stash buffer is used after a call that
                                       (transitively) reaches Buffer::purge_removed / clear on the same path (garbage_collect relocates items)
 
 Not decided (moved to "not decided"): model equivalence over operation histories; the m_data[cid] access in
-IdSetDenseIterator::next (bounded by the iterator invariant m_value < m_last, not by a dominating test); should_gc() heuristic;
+IdSetDenseIterator::next (bounded by the iterator invariant m_value < m_last, not by a dominating test); the thresholds of should_gc();
 IdSetSmall::merge_sorted preconditions; std algorithm semantics.
 """
 from .. import c12_util as U
@@ -820,6 +825,25 @@ def _unsorted_path(fb, fn, root, target):
     return None
 
 
+def _fits32(fb, fn, nid):
+    """canonical texts of the expressions known to be <= 2^32-1 when element nid executes (dominating tests against a constant)."""
+    bounded = set()
+    for (c, s, b, o) in U.guards(fn, nid):
+        p = U.cmp_parts(fn, c)
+        if p is None:
+            continue
+        op = p[0] if s else U.NEG[p[0]]
+        for a, z, o2 in ((p[1], p[2], op), (p[2], p[1], U.FLIP[op])):
+            zn = U.scn(fn, z)
+            lim = fn.const_value(z)
+            if lim is None and zn is not None and zn.get('k') == 'var' and zn.get('vk') == 'local' and zn['d'] not in U.assigned_vars(fn):
+                init = U.local_init(fn, zn['d'])
+                lim = fn.const_value(init) if init is not None else None
+            if lim is not None and ((o2 == '<=' and lim <= 2 ** 32 - 1) or (o2 == '<' and lim <= 2 ** 32)):
+                bounded.add(U.ctext(fb, fn, U.strip_casts(fn, a)))
+    return bounded
+
+
 def relmap_rules(fb, R):
     r1, r2, r3, r4 = 'R1-builders-hand-out-sorted-maps', 'R2-merge-appends-every-element', 'R3-narrow-store-guarded', 'R4-index-dispatch'
     srec = fb.record(STASH)
@@ -942,20 +966,7 @@ def relmap_rules(fb, R):
         if ok:
             pn = [p['name'] for p in fn.params]
             okargs = all([U.ctext(fb, fn, a) for a in s['args']] == pn for s in sets32 + sets64)
-            bounded = set()
-            for (c, s, b, o) in U.guards(fn, sets32[0]['id']):
-                p = U.cmp_parts(fn, c)
-                if p is None:
-                    continue
-                op = p[0] if s else U.NEG[p[0]]
-                for a, z, o2 in ((p[1], p[2], op), (p[2], p[1], U.FLIP[op])):
-                    zn = U.scn(fn, z)
-                    lim = fn.const_value(z)
-                    if lim is None and zn is not None and zn.get('k') == 'var' and zn.get('vk') == 'local' and zn['d'] not in U.assigned_vars(fn):
-                        init = U.local_init(fn, zn['d'])
-                        lim = fn.const_value(init) if init is not None else None
-                    if lim is not None and ((o2 == '<=' and lim <= 2 ** 32 - 1) or (o2 == '<' and lim <= 2 ** 32)):
-                        bounded.add(U.ctext(fb, fn, a))
+            bounded = _fits32(fb, fn, sets32[0]['id'])
             ok = okargs and set(pn) <= bounded and U.must_pass(fn, fn.entry, [sets32[0]['id'], sets64[0]['id']]) is None
         R.check(ok, r3, fn.q + '#32-bit-map-only-for-small-ids', fn.site,
                 '%s must store (member, parent) in the 32-bit map only when both ids are <= 2^32-1 (the pair is narrowed with static_cast) and in the 64-bit map otherwise' % fn.q)
@@ -1045,6 +1056,16 @@ def relmap_rules(fb, R):
             ok = ok and senses == {m == i32}
         R.check(ok, r4, fn.q + '#dispatch-on-small-flag', fn.site, '%s must use the 32-bit map exactly when %s is set (and the 64-bit map otherwise)' % (fn.q, iflag))
         if fn.name == 'for_each':
+            # R3 (lookups): the 32-bit map narrows its key; an id that does not fit must never reach it
+            for (n, m) in uses:
+                if m != i32:
+                    continue
+                idn = fn.params[0]['name'] if fn.params else '?'
+                keys = [U.ctext(fb, fn, U.strip_casts(fn, a_)) for a_ in n.get('args', []) if a_ is not None]
+                ok3 = idn in keys and idn in _fits32(fb, fn, n['id'])
+                R.check(ok3, 'R3-narrow-lookup-guarded', fn.q + '#32-bit-map-looked-up-only-with-fitting-id', fn.loc(n['id']),
+                        '%s hands the 64-bit id to the 32-bit map without a dominating test that it is <= 2^32-1: the key is narrowed, so the '
+                        'lookup of 2^32 + k reports the entries of k' % fn.q)
             idp = fn.params[0] if fn.params else None
             good = idp is not None
             ninv = 0
@@ -1416,6 +1437,83 @@ def itemstash_rules(fb, R):
             R.check(w is None, r4, fn.q + '#buffer-position-not-used-after-compaction', fn.loc(decl['id']),
                     '%s reads a buffer position, then (possibly) compacts the buffer and uses the stale position afterwards (the offset recorded for the '
                     'item no longer points at it): %s' % (fn.q, describe_path(fn, w)))
+    # ---- I5 the collection decision is monotone in the number of removed items
+    r5 = 'I5-gc-decision-monotone-in-removed'
+    deciders = {}
+    for fn in byname.get('add_item', []):
+        for g_ in [n for n in fn.all_nodes() if n.get('k') == 'call' and n.get('q') == ITEMSTASH + '::garbage_collect']:
+            for (c, s_, b_, o_) in U.guards(fn, g_['id']):
+                x = U.scn(fn, c)
+                if s_ and x is not None and x.get('k') == 'call' and x.get('rcls') == ITEMSTASH and not x.get('args'):
+                    d_ = U._callee_for(fb, fn, x)
+                    if d_ is not None and d_.has_cfg:
+                        deciders[d_.pat] = d_
+
+    def term(f, nid):
+        """'inc': increasing in the removed count (the member, scaled / shifted by positive constants); 'none': independent; else 'unknown'"""
+        n = U.scn(f, nid)
+        if n is None:
+            return 'unknown'
+        if f.is_this_member(nid, removed) or (n.get('k') == 'member' and n.get('name') == removed and f.is_this_member(n['id'])):
+            return 'inc'
+        if not any(f.nodes[x].get('k') == 'member' and f.nodes[x].get('name') == removed for x in f.subtree(n['id'])):
+            return 'none'
+        if n.get('k') == 'binop' and n.get('op') in ('*', '+'):
+            for a, b in ((n['lhs'], n['rhs']), (n['rhs'], n['lhs'])):
+                v = f.const_value(b)
+                if v is not None and v > 0 and term(f, a) == 'inc':
+                    return 'inc'
+        return 'unknown'
+
+    def mono(f, cond, sense):
+        """direction of `cond == sense` as a function of the removed count: 'inc' (becomes true as it grows), 'dec', 'const', 'unknown'"""
+        n = f.sn(cond)
+        if n is None:
+            return 'unknown'
+        if n.get('k') == 'unop' and n.get('op') == '!':
+            return mono(f, n['sub'], not sense)
+        if n.get('k') == 'binop' and n.get('op') in ('&&', '||'):
+            parts = {mono(f, n['lhs'], sense), mono(f, n['rhs'], sense)} - {'const'}
+            if not parts:
+                return 'const'
+            return parts.pop() if len(parts) == 1 else 'unknown'
+        p = U.cmp_parts(f, cond)
+        if p is None:
+            return 'const' if term(f, cond) == 'none' else 'unknown'
+        op, l, r = p
+        if not sense:
+            op = U.NEG[op]
+        tl, tr = term(f, l), term(f, r)
+        if tl == 'none' and tr == 'none':
+            return 'const'
+        if tl == 'inc' and tr == 'none':
+            return {'<': 'dec', '<=': 'dec', '>': 'inc', '>=': 'inc'}.get(op, 'unknown')
+        if tr == 'inc' and tl == 'none':
+            return {'<': 'inc', '<=': 'inc', '>': 'dec', '>=': 'dec'}.get(op, 'unknown')
+        return 'unknown'
+    if not deciders:
+        R.broken('ItemStash::add_item: the function that decides about a garbage collection was not identified')
+    for fn in deciders.values():
+        dom = fn.dominators()
+        for ret in _returns(fn):
+            v = fn.const_value(ret['sub'])
+            key = '%s#return-%s' % (fn.q, {0: 'false', 1: 'true'}.get(v, 'expression'))
+            site = fn.loc(ret['id'])
+            if v is None:
+                d = mono(fn, ret['sub'], True)
+                R.check(d != 'dec', r5, key, site,
+                        '%s returns an expression that turns false as %s grows: with more removed items the stash would stop collecting' % (fn.q, removed))
+                continue
+            gs = U.guards(fn, ret['id'])
+            blocks = {b for (c, s_, b, o) in gs}
+            near = [b for b in blocks if all(o == b or o in dom.get(b, ()) for o in blocks)]
+            dirs = {mono(fn, c, s_) for (c, s_, b, o) in gs if near and b == near[0] and U.cmp_parts(fn, c) is not None}
+            # the test that immediately selects this return: `false` may only be chosen by an upper bound on the removed count, `true` by a lower bound
+            wrong = 'inc' if v == 0 else 'dec'
+            R.check(wrong not in dirs, r5, key, site,
+                    '%s returns %s under a test that gets %s likely as %s grows: more removed items must never turn "collect" into "do not collect" '
+                    '(the stash would stop reclaiming space exactly when removed items dominate)' % (fn.q, 'false' if v == 0 else 'true', 'more', removed),
+                    'deciding tests: %s' % sorted(dirs))
     for need in ('add_item', 'clear'):
         if not byname.get(need):
             R.broken('ItemStash::%s not found' % need)
@@ -1472,11 +1570,13 @@ def run(ctx):
     R.expect('R1-builders-hand-out-sorted-maps', 8)  # 3 builders: 2 + 2 + 4 maps
     R.expect('R2-merge-appends-every-element', 5)
     R.expect('R3-narrow-store-guarded', 1)
+    R.expect('R3-narrow-lookup-guarded', 1)         # RelationsMapIndex::for_each (F28, fixed by 3df468d)
     R.expect('R4-index-dispatch', 7)
     R.expect('I1-remove-pairs-updates', 4)
     R.expect('I2-gc-rewrites-index', 5)
     R.expect('I3-handle-discipline', 7)
     R.expect('L1-special-members-memberwise', 5)     # IdSetDense: swap x 2 members, copy constructor x 2 (chunks: see A6), operator=(by value)
+    R.expect('I5-gc-decision-monotone-in-removed', 3)   # should_gc: return false / return true / return <capacity expression>
     R.expect('I4-no-stale-buffer-offset', 1)       # add_item (the only method holding a buffer position in a local)
 
 
@@ -1493,4 +1593,4 @@ SELFTESTS = [(r, 'c15_sets.cpp', _selftest_sets) for r in (
     'A5-idset-size-tracks-bit-flips', 'A6-idset-copy-keeps-chunk-slots', 'S1-search-key-prefix-of-sort-key', 'S2-sort-unique-erase',
     'R1-builders-hand-out-sorted-maps', 'R2-merge-appends-every-element', 'R3-narrow-store-guarded', 'R4-index-dispatch',
     'I1-remove-pairs-updates', 'I2-gc-rewrites-index', 'I3-handle-discipline', 'I4-no-stale-buffer-offset',
-    'L1-special-members-memberwise')]
+    'L1-special-members-memberwise', 'I5-gc-decision-monotone-in-removed', 'R3-narrow-lookup-guarded')]
